@@ -180,8 +180,12 @@ def run(ck: Check):
             m["real"], m["model"] = c05.first_diff(m["real"], m["model"])
     ck.cover(evaluations=dist["parses"], distinct=distinct, samples=samples,
              dist=dict(dist, kahn_tables=len(tables), kahn_recursive=n_rec))
-    ck.partial.append("that the real parse of each item type reads only what its declared dependencies provide (and nothing from "
-                      "the map_list region) is not a theorem: the dependency table is the code's own claim, validated by dexperm")
+    ck.partial.append("frame/adequacy theorems (step_frame, deps_adequate) cover the ten item types modelled in Model/DexFile.lean; for "
+                      "annotations, debug info, encoded arrays, call sites, method handles and hidden-api data the dependency table "
+                      "stays the code's own claim, validated by dexperm")
+    ck.partial.append("parse_perm_invariant assumes the decidable hypothesis sameItems (no item decodes differently after the map list "
+                      "was rewritten); no geometric criterion (items disjoint from the map list) is derived; parse_perm_needs_items "
+                      "shows the hypothesis is necessary")
     ck.assumptions += ["Python's sorted() is stable (modelled as insertion sort); dict/OrderedDict iteration is insertion order",
                        "maps with duplicate types are outside the hypothesis (reported in notes, not judged)"]
 
